@@ -136,16 +136,20 @@ H(name="hdr_valid_file_format", crate="kestrel-crypto", mod="decrypt::verif_hdr_
 NOISE_ENV = ["crate::sha256, hkdf_noise, x25519, chapoly_{encrypt,decrypt}_noise as UNINTERPRETED functions (record in the initiator run, replay in the responder run; X25519 replays the commuted pair: DH(a,pub b) = DH(b,pub a))", E_ZERO]
 for _part, _what in (("hash", "the hash chain: five MixHash inputs (h0||prologue, h||rs, h||e, h||enc s, h||enc payload) and the handshake hash"),
                      ("keys", "es = DH(e, rs), ss = DH(s, rs), MixKey chain HKDF(ck, dh) twice, Split = HKDF(ck, empty)"),
-                     ("seal", "s and payload sealed under the es / ss key, nonce 0, AD = h"),
-                     ("msg", "message = e || enc s || enc payload (128 bytes)")):
+                     ("seal", "s and payload sealed under the es / ss key, nonce 0, AD = h")):
+    # (a fourth slice, 'msg': message = e || enc s || enc payload read back from the heap Vec, exhausts memory;
+    #  the layout is decided from the reader's side by noise_read_lockstep_* and from the header by hdr_key_encrypt)
     H(name="noise_write_lockstep_" + _part, crate="kestrel-crypto", mod="noise::verif_noise", props=["C01", "C05", "C06", "C08"], est_s=500, timeout=3000, mem_gb=24, rlimit_gb=36,
       desc="HandshakeState::{init_x, write_message} trace == Noise_X pattern of the Noise spec; this harness decides " + _what,
       funcs=["noise::HandshakeState::init_x", "noise::HandshakeState::write_message", "noise::HandshakeState::get_pubkey", "noise::SymmetricState::*", "noise::CipherState::*"],
       bounds="all key material, prologue (4 bytes) and 32-byte payload; one handshake", env=NOISE_ENV, outside="the primitives themselves (C19); payloads other than 32 bytes")
-H(name="noise_read_lockstep", crate="kestrel-crypto", mod="noise::verif_noise", props=["C01", "C05", "C06"], est_s=900, timeout=3000, mem_gb=30, rlimit_gb=36,
-  desc="HandshakeState::{init_x, read_message} on a message built per the specification (trace tables filled from the spec with fresh values): recomputes the same hashes/keys, presents the commuted DH pairs, returns (payload, sender static key, same handshake hash)",
-  funcs=["noise::HandshakeState::init_x", "noise::HandshakeState::read_message", "noise::HandshakeState::get_pubkey", "noise::SymmetricState::*", "noise::CipherState::*"],
-  bounds="all key material, prologue and payload; one handshake", env=NOISE_ENV, outside="the primitives themselves (C19)")
+for _part, _what in (("hash", "the hash chain over prologue, OWN static key, e, enc s, enc payload; handshake hash"),
+                     ("keys", "es = DH(own static, e), ss = DH(own static, decrypted sender key), MixKey chain, Split"),
+                     ("open", "both values opened under the es / ss key, nonce 0, AD = h; returned payload and reported sender are what was opened")):
+    H(name="noise_read_lockstep_" + _part, crate="kestrel-crypto", mod="noise::verif_noise", props=["C01", "C05", "C06"], est_s=500, timeout=3000, mem_gb=24, rlimit_gb=36,
+      desc="HandshakeState::{init_x, read_message} trace on ANY 128-byte message == Noise_X responder pattern; this harness decides " + _what,
+      funcs=["noise::HandshakeState::init_x", "noise::HandshakeState::read_message", "noise::HandshakeState::get_pubkey", "noise::SymmetricState::*", "noise::CipherState::*"],
+      bounds="all key material, prologue and 128 message bytes; one handshake", env=NOISE_ENV, outside="the primitives themselves (C19)")
 H(name="noise_ephemeral_consistency", crate="kestrel-crypto", mod="noise::verif_noise", props=["C07", "C08", "C06"], est_s=400, timeout=3000, mem_gb=16, rlimit_gb=36,
   desc="for every combination of caller-supplied ephemeral arguments (Some/None x Some/None): the 32 bytes sent in clear are the public half of the private key used for es - the caller's pair, or a FRESH 32-byte CSPRNG draw and its derived public key; never anything derived from a static key",
   funcs=["noise::HandshakeState::init_x", "noise::HandshakeState::write_message", "PrivateKey::generate", "PrivateKey::to_public"], bounds="all key material; 4 option combinations",
@@ -232,7 +236,7 @@ H(name="cmd_gen_key_fs", crate="kestrel-cli", mod="commands::verif_cmd", props=[
   desc="gen_key(Some(path)): invalid name / missing password => Err and the path untouched; else Ok, earlier contents are a byte prefix of the new contents (existing file never re-created), new file created once, flushed; private key = CSPRNG draw 1, salt = draw 2 (distinct), PublicKey = encode(derive_public(draw 1)), locked under the user's password",
   funcs=["commands::gen_key", "commands::open_output", "commands::OnDemandFile"], bounds="output path absent | present with any 0..4 bytes; one key generation from that arbitrary state (= the inductive step for any history)", env=CMD_ENV, outside=CMD_OUT + "; that the appended text parses (C17)")
 for _c, _p, _t in (("cmd_decrypt_flow", ["C12", "C13", "C05"], "thorough"), ("cmd_encrypt_flow", ["C12", "C13", "C07", "C05"], "thorough"),
-                   ("cmd_pass_encrypt_flow", ["C12", "C13", "C07", "C02"], "quick"), ("cmd_pass_decrypt_flow", ["C12", "C13", "C02"], "quick")):
+                   ("cmd_pass_encrypt_flow", ["C12", "C13", "C07", "C02"], "thorough"), ("cmd_pass_decrypt_flow", ["C12", "C13", "C02"], "thorough")):
     H(name=_c, crate="kestrel-cli", mod="commands::verif_cmd", props=_p, est_s=600, timeout=(7200 if _t == "thorough" else 2400), tier=_t, optional=(_t == "thorough"), mem_gb=16, replay="model", unwindset=BT_UNWIND,
       desc="command returns Ok iff every pre-check passed and the library call returned Ok (errors never swallowed, success never manufactured); output path untouched unless and until the library writes; then it holds exactly what the library wrote; keys/passwords/salts handed to the library are the ones obtained (sender looked up by the authenticated key; salt = fresh CSPRNG draw)",
       funcs=["commands::" + _c.replace("cmd_", "").replace("_flow", ""), "commands::open_input", "commands::open_output", "commands::OnDemandFile"],
@@ -247,17 +251,22 @@ H(name="main_exit_status", crate="kestrel-cli", mod="verif_main", props=["C12"],
 H(name="main_slice_args", crate="kestrel-cli", mod="verif_main", props=["C09", "C12"], est_s=30, replay="playback",
   desc="slice_args(args, idx) never panics: remainder after idx or empty", funcs=["slice_args"], bounds="0..4 args, idx 0..6", env=[], outside="")
 
+# std's substring search nests loops (CharSearcher::next_match -> memchr): with one global bound the nesting is
+# quadratic and symex runs out of memory inside the first `lines().next()`. Per-loop bounds for lines <= 62 bytes:
+STR_UNWIND = ["_RNvNtNtCs8xvirJzNMvV_4core5slice6memchr12memchr_naiveCscPEpKYx75LN_7kestrel.0:18",
+              "_RNvNvNtNtCs8xvirJzNMvV_4core5slice6memchr14memchr_aligned7runtimeCscPEpKYx75LN_7kestrel.0:8",
+              "_RNvXs_NtNtCs8xvirJzNMvV_4core3str7patternNtB4_12CharSearcherNtB4_8Searcher10next_matchCscPEpKYx75LN_7kestrel.0:4"]
 PARSER_OUT = "arbitrary UTF-8 texts and exhaustive token sequences: std's str::lines/trim/retain/memchr on symbolic text are out of reach of the bit-blasting back end in quick-tier time (DESIGN 6.1)"
-H(name="c17_name_roundtrip", crate="kestrel-cli", mod="keyring::verif_keyring", props=["C17", "C14"], tier="thorough", optional=True, est_s=3000, timeout=7200, mem_gb=16, replay="model",
+H(name="c17_name_roundtrip", crate="kestrel-cli", mod="keyring::verif_keyring", unwindset=STR_UNWIND, props=["C17", "C14"], tier="thorough", optional=True, est_s=3000, timeout=7200, mem_gb=16, replay="model",
   desc="the [Key] section text key generation writes (transcribed format) for ANY accepted name of 1..2 ASCII bytes without TAB parses back to exactly that name and public key, and is found by get_key",
   funcs=["keyring::Keyring::new", "keyring::Keyring::parse_config", "keyring::Keyring::add_key", "keyring::Keyring::get_key", "keyring::EncodedPk::try_from"],
   bounds="names of 1..2 ASCII bytes (no NUL, LF, TAB; no leading/trailing whitespace)", env=KR_ENV[2:3], outside="names > 2 bytes; non-ASCII names; serialize_key's own formatting (transcribed)")
-H(name="c17_name_roundtrip_tab", crate="kestrel-cli", mod="keyring::verif_keyring", props=["C17"], est_s=300, timeout=2400, replay="model",
+H(name="c17_name_roundtrip_tab", crate="kestrel-cli", mod="keyring::verif_keyring", unwindset=STR_UNWIND, props=["C17"], est_s=300, timeout=2400, replay="model",
   desc="KNOWN FINDING F4: the same round trip for the concrete name a<TAB>b (expected to fail: the parser deletes every TAB)", funcs=["keyring::Keyring::parse_config"], bounds="one concrete text", env=KR_ENV[2:3], outside="")
-H(name="c17_sections", crate="kestrel-cli", mod="keyring::verif_keyring", props=["C17"], tier="thorough", optional=True, est_s=3000, timeout=7200, mem_gb=16, replay="model",
+H(name="c17_sections", crate="kestrel-cli", mod="keyring::verif_keyring", unwindset=STR_UNWIND, props=["C17"], tier="thorough", optional=True, est_s=3000, timeout=7200, mem_gb=16, replay="model",
   desc="Keyring::new on two sections with symbolic one-byte names and symbolic key choice: accepted iff names differ and keys differ; entries in order",
   funcs=["keyring::Keyring::new", "keyring::Keyring::parse_config", "keyring::Keyring::add_key"], bounds="names in a..c x a..c, same/different public key", env=KR_ENV[2:3], outside=PARSER_OUT)
-H(name="c17_shapes", crate="kestrel-cli", mod="keyring::verif_keyring", props=["C17", "C09"], auto_props=["C09", "C17"], est_s=600, timeout=3000, replay="model",
+H(name="c17_shapes", crate="kestrel-cli", mod="keyring::verif_keyring", unwindset=STR_UNWIND, props=["C17", "C09"], auto_props=["C09", "C17"], est_s=600, timeout=3000, replay="model",
   desc="Keyring::new on ten concrete section shapes (empty first/last section, field outside section, missing field, field twice, comments/blank/no final newline, junk, malformed private key, empty file): accepted iff the documented rule says so; entries = sections; never a panic",
   funcs=["keyring::Keyring::new", "keyring::Keyring::parse_config", "keyring::Keyring::add_key"], bounds="ten concrete texts of <= 110 bytes, executed one after the other (concrete cases, not solver-chosen)", env=KR_ENV[2:3], outside=PARSER_OUT)
 
